@@ -72,6 +72,8 @@ class Session:
         for rname, rd in getattr(side, "RECORDS", {}).items():
             if rd.get("struct"):
                 V.tenv.add_struct(rname, rd["fields"])
+                if rd.get("dict_display"):      # {"key": value, ...} with exactly these constant keys denotes this struct
+                    V.tenv.aliases[rname].dict_display = True  # type: ignore[attr-defined]
             else:
                 V.tenv.add_record(rname, rd["fields"], rd.get("mutable"))
         V.tenv.finish()
